@@ -46,7 +46,8 @@ class PCtx:
             i = d(st.integers(0, n - 1))
             vals = [d(st.sampled_from([0.0, 1.0, 0.3])) for _ in range(n)]
             vals[i] = x
-            return {"var": self.new_var("float", vals, size=n), "idx": i}
+            # the same item named from the end (-1 ... -n) half of the time
+            return {"var": self.new_var("float", vals, size=n), "idx": i - n if d(st.booleans()) else i}
         if t == "add":
             return {"fn": "add", "a": {"var": self.new_var("float", x - c)}, "b": c,
                     "swap": d(st.booleans())}
@@ -83,7 +84,13 @@ class PCtx:
 
     def int_expr(self, x: int):
         d = self.draw
-        t = d(st.sampled_from(["v", "v", "add", "mul", "floordiv", "mod", "ceil", "floor", "round", "cast"]))
+        t = d(st.sampled_from(["v", "v", "add", "mul", "floordiv", "mod", "ceil", "floor", "round", "cast", "item"]))
+        if t == "item":
+            n = d(st.integers(1, 3))
+            i = d(st.integers(0, n - 1))
+            vals = [d(st.sampled_from([0, 1, 16])) for _ in range(n)]
+            vals[i] = x
+            return {"var": self.new_var("int", vals, size=n), "idx": i - n if d(st.booleans()) else i}
         if t == "add":
             c = d(st.sampled_from([1, 4, -3]))
             return {"fn": "add", "a": {"var": self.new_var("int", x - c)}, "b": c, "swap": d(st.booleans())}
